@@ -97,6 +97,28 @@ def check_relations(ctx, case, obj, temps, label):
             ctx.violation('GoRT != HoRT - SoR', case,
                           {'T': T, 'G': g, 'H': h, 'S': s, 'surface': label})
     cpmax = max(abs(c) for c in case['Cps']) + 1.0
+    # (i') the array form of get_CpoR (documented: `T` or an array of `T`)
+    # is the scalar form element by element
+    if len(vals) >= 2:
+        order_ = sorted(vals)
+        ao = observe(obj.get_CpoR, np.array(order_, dtype=float))
+        ctx.evals()
+        if 'exc' in ao:
+            ctx.violation('get_CpoR(array of in-range T) raised %s'
+                          % ao['exc'], case, {'msg': ao['msg'],
+                                              'surface': label})
+        else:
+            arr = np.asarray(ao['ok'], dtype=float)
+            if arr.shape != (len(order_),) or any(
+                    not close(float(arr[i]), vals[T][0], rel=1e-12,
+                              abs_=1e-12 * cpmax)
+                    for i, T in enumerate(order_)):
+                ctx.violation('get_CpoR(array) differs from the scalar calls',
+                              case, {'array': repr(arr)[:200],
+                                     'scalars': [vals[T][0] for T in order_][:8],
+                                     'surface': label})
+            else:
+                ctx.count('array_T_evaluations', len(order_))
     # (i) tabulated points reproduced
     for T in ts:
         if T in vals and not close(vals[T][0], cp_at[T], rel=1e-9,
